@@ -37,7 +37,7 @@ var tokenAlphabet = []string{"C", "G", "R", "1", "5", "12", "#", "b", "â™¯", "â™
 // junkRunes: characters no rule of the tokenisation treats specially (they
 // can only be part of a symbol or of a metadata token): control characters,
 // and letters whose low byte equals one of the delimiters / [ _ ; = { } , ] #.
-var junkRunes = []string{"\"", "'", "`", "\\", "\x00", "\x01", "\x1a", "\x1b", "\x7f", "\u0085", "\u009b", "Å›", "Ä¯", "ÅŸ", "Ä»", "Ä½", "â¼¯", "Å", "Å«", "Å­", "Ä¬", "Ä£", "Å‘", "\ufeff", "\u200b", "\u2028", "\ufffd", "\U0001F3B5", "ï¼…", "ï¼»", "ï¼›"}
+var junkRunes = []string{"\"", "'", "`", "\\", "\x00", "\x01", "\x1a", "\x1b", "\x7f", "\u0085", "\u009b", "Å›", "Ä¯", "ÅŸ", "Ä»", "Ä½", "â¼¯", "Å", "Å«", "Å­", "Ä¬", "Ä£", "Å‘", "\ufeff", "\u200b", "\u2028", "\ufffd", "\U0001F3B5", "ï¼…", "ï¼»", "ï¼›", "ï¼‘", "Ù£", "à¥¦", "ï¼™"}
 
 func (p *C04) Prepare(env *Env, tier string, seed uint64) error {
 	if err := p.w.Load(env); err != nil {
@@ -62,7 +62,7 @@ func (p *C04) Prepare(env *Env, tier string, seed uint64) error {
 		if !full && r.Chance(1, 5) {
 			// the same text as FILE argument (the oracle reads the text from step 0)
 			fp := Step{Step: simrt.Step{Argv: []string{"text", "parse", inPath}, Seed: r.U64(), Stdin: &simrt.Stream{Data: text},
-				Files: map[string]*simrt.FileSpec{inPath: {Data: text, Plan: GenPlan(r)}}}, Note: "parse-file"}
+				Files: map[string]*simrt.FileSpec{inPath: {Data: text, Plan: GenPlan(r), Pipe: r.Chance(1, 3)}}}, Note: "parse-file"}
 			if r.Chance(1, 2) {
 				fp.Argv = []string{"text", "parse", "-"}
 				fp.Files = nil
